@@ -937,6 +937,8 @@ tan = _map(_tan1)
 def _log1(x):
     if is_nan(x):
         return x
+    if is_inf(x):
+        return x if x > 0 else float("nan")
     if not is_sym(x):
         fx = nice_fraction(x) if not is_inf(x) else x
         if fx == 1:
